@@ -190,6 +190,9 @@ def gen_case(rng, unicode_mode=None, maxlen=10):
         ops.append(('call', kind, pats, w, rng.random() < 0.15))
     return {'unicode': unicode_mode, 'script': script, 'ops': ops, 'init': None,
             'sw': rng.choice([None, None, 1, 2, 3, 5]),          # the spawn object's own searchwindowsize
+            # regex calls made through expect() with the pattern SOURCES (compiled by pexpect: DOTALL, plus IGNORECASE when the
+            # object's ignorecase is set - which changes nothing on this lower-case alphabet, and must change nothing else)
+            'via_expect': rng.random() < 0.3, 'ignorecase': rng.random() < 0.5,
             'reuse_list': rng.random() < 0.4}                    # the caller reuses ONE list object, edited in place between calls
 
 
@@ -308,6 +311,8 @@ def run_real(pexpect, case):
         sp._buffer.write(enc(buf))
     if case.get('sw') is not None:
         sp.searchwindowsize = case['sw']
+    if case.get('via_expect') and case.get('ignorecase'):
+        sp.ignorecase = True
     shared = {'exact': [], 're': []}
     obs = []
     for op in case['ops']:
@@ -325,6 +330,8 @@ def run_real(pexpect, case):
                 plist.append(pexpect.TIMEOUT)
             elif p[0] == 's':
                 plist.append(enc(p[1]))
+            elif case.get('via_expect'):
+                plist.append(enc(rx_src(p[1], enc)))
             else:
                 plist.append(re.compile(enc(rx_src(p[1], enc)), re.DOTALL))
         timeout = 0 if t0 else 30
@@ -336,6 +343,8 @@ def run_real(pexpect, case):
         try:
             if kind == 'exact':
                 idx = sp.expect_exact(plist, timeout=timeout, **kw)
+            elif case.get('via_expect'):
+                idx = sp.expect(plist, timeout=timeout, **kw)
             else:
                 idx = sp.expect_list(plist, timeout=timeout, **kw)
             o['ret'] = idx
